@@ -1,11 +1,19 @@
 package verifharness
 
 import (
+	"crypto/ed25519"
 	"crypto/tls"
 	"encoding/json"
+	"encoding/pem"
 	"fmt"
 	"net"
+	"os"
+	"strings"
 	"time"
+
+	"golang.org/x/crypto/ssh"
+
+	"verif/sim/simnet"
 )
 
 // World "authz" (C04): no session, proxy or work connection without valid client
@@ -33,6 +41,37 @@ func worldAuthz(w *World) {
 		"transport":       map[string]any{"tcpMux": tcpMux, "heartbeatTimeout": hbTimeout},
 		"allowPorts":      []map[string]any{{"start": 20000, "end": 20009}},
 		"userConnTimeout": 3,
+	}
+	sshGW := w.KnobPick("ssh_gateway", 0, 0, 1, 2) // 0 off, 1 with authorized keys, 2 without client auth (token required)
+	var sshDir string
+	var sshGood, sshBad ssh.Signer
+	if sshGW != 0 {
+		sshDir, _ = os.MkdirTemp("", "verif-ssh")
+		defer os.RemoveAll(sshDir)
+		mk := func(name string) (ssh.Signer, ssh.PublicKey) {
+			seed := make([]byte, ed25519.SeedSize)
+			newSubRand(w, "sshkey:"+name).Fill(seed)
+			k := ed25519.NewKeyFromSeed(seed)
+			sg, _ := ssh.NewSignerFromKey(k)
+			pk, _ := ssh.NewPublicKey(k.Public())
+			return sg, pk
+		}
+		var goodPub ssh.PublicKey
+		sshGood, goodPub = mk("good")
+		sshBad, _ = mk("bad")
+		hostSeed := make([]byte, ed25519.SeedSize)
+		newSubRand(w, "sshkey:host").Fill(hostSeed)
+		blk, err := ssh.MarshalPrivateKey(ed25519.NewKeyFromSeed(hostSeed), "")
+		if err != nil {
+			w.Fail("host key: %v", err)
+		}
+		os.WriteFile(sshDir+"/host_key", pem.EncodeToMemory(blk), 0o600)
+		gw := map[string]any{"bindPort": 2200, "privateKeyFile": sshDir + "/host_key"}
+		if sshGW == 1 {
+			os.WriteFile(sshDir+"/authorized_keys", []byte(strings.TrimSpace(string(ssh.MarshalAuthorizedKey(goodPub)))+" alice\n"), 0o600)
+			gw["authorizedKeysFile"] = sshDir + "/authorized_keys"
+		}
+		scfg["sshTunnelGateway"] = gw
 	}
 	if w.In.CertDir != "" {
 		scfg["transport"].(map[string]any)["tls"] = map[string]any{"certFile": w.In.CertDir + "/server.crt", "keyFile": w.In.CertDir + "/server.key"}
@@ -110,9 +149,77 @@ func worldAuthz(w *World) {
 		}
 	}
 
+	// sshTunnel behaves like `ssh -R :80:... v0@frps -p 2200 <cmd>`; returns the client (nil if the ssh handshake was refused).
+	var sshClients []*ssh.Client
+	sshTunnel := func(signer ssh.Signer, cmd string) *ssh.Client {
+		conn, err := simnet.DialFrom("10.0.4.1", "10.0.0.1:2200", 5*time.Second)
+		if err != nil {
+			return nil
+		}
+		conn.SetDeadline(time.Now().Add(20 * time.Second))
+		cc, chans, reqs, err := ssh.NewClientConn(conn, "10.0.0.1:2200", &ssh.ClientConfig{User: "v0",
+			Auth: []ssh.AuthMethod{ssh.PublicKeys(signer)}, HostKeyCallback: ssh.InsecureIgnoreHostKey()})
+		if err != nil {
+			conn.Close()
+			return nil
+		}
+		conn.SetDeadline(time.Time{})
+		cl := ssh.NewClient(cc, chans, reqs)
+		sshClients = append(sshClients, cl)
+		if _, err := cl.Listen("tcp", "0.0.0.0:80"); err != nil {
+			return cl
+		}
+		if sess, err := cl.NewSession(); err == nil {
+			sess.Start(cmd)
+		}
+		return cl
+	}
+	sshUp := false
+	sshStep := func() {
+		if sshGW == 0 {
+			return
+		}
+		switch k := r.Intn(4); {
+		case sshGW == 1 && k == 0: // a key that is not in the authorized keys file
+			w.Check("C04.ssh-unauthorized-key-refused")
+			cl := sshTunnel(sshBad, "tcp --proxy_name sshevil --remote_port 20007")
+			time.Sleep(3 * time.Second)
+			if env.frpsTCPPorts()[20007] {
+				viol("ssh", "unauthorized-ssh-key-got-proxy", "an ssh user whose key is not authorized got a proxy on port 20007 (handshake accepted: %v)", cl != nil)
+			}
+		case sshGW == 2 && k <= 1: // gateway without ssh authentication: the virtual client needs the token
+			w.Check("C04.ssh-noauth-needs-token")
+			cmd := "tcp --proxy_name sshevil --remote_port 20007"
+			if k == 1 {
+				cmd += " --token " + badTokens[1+r.Intn(len(badTokens)-1)]
+			}
+			sshTunnel(sshBad, cmd)
+			time.Sleep(3 * time.Second)
+			if env.frpsTCPPorts()[20007] {
+				viol("ssh", "ssh-without-token-got-proxy", "gateway without ssh authentication: %q got a proxy on port 20007", cmd)
+			}
+		default: // a legitimate ssh user
+			if sshUp {
+				return
+			}
+			cmd := "tcp --proxy_name sshgood --remote_port 20008"
+			if sshGW == 2 {
+				cmd += " --token " + token
+			}
+			sshTunnel(sshGood, cmd)
+			if w.WaitUntil(10*time.Second, 200*time.Millisecond, func() bool { return env.frpsTCPPorts()[20008] }) {
+				sshUp = true
+				w.Probe("authz.ssh_tunnel_up")
+			}
+		}
+	}
+
 	nattacks := w.KnobPick("nattacks", 5, 12, 30)
 	for i := 0; i < nattacks; i++ {
 		ts := time.Now().Unix() + int64(r.Range(-100000, 100000))
+		if sshGW != 0 && r.Intn(3) == 0 {
+			sshStep()
+		}
 		switch k := r.Intn(12); k {
 		case 0: // wrong / missing key
 			tok := badTokens[r.Intn(len(badTokens))]
@@ -258,13 +365,16 @@ func worldAuthz(w *World) {
 	for _, c := range advs {
 		c.Drop()
 	}
+	for _, cl := range sshClients {
+		cl.Close()
+	}
 	time.Sleep(90 * time.Second)
 	w.Check("C04.footprint")
 	if g := frpGoroutines(); g > baseG+6 {
 		viol("footprint", "goroutines-left-behind", "server goroutines %d before the attacks, %d after settling:\n%s", baseG, g, frpGoroutineSummary())
 	}
 	close(stopHB)
-	w.SetSample(map[string]any{"scopes": scopes, "attacks": nattacks, "tls": useTLS, "mux": tcpMux, "base_conns": baseC})
+	w.SetSample(map[string]any{"scopes": scopes, "attacks": nattacks, "ssh_gateway": sshGW, "ssh_up": sshUp, "tls": useTLS, "mux": tcpMux, "base_conns": baseC})
 	w.Nontrivial()
 	_ = json.Marshal
 }
